@@ -204,6 +204,7 @@ def spec(case, mos, io):
         return exprprop.check_batchorder(case, io)
     if case["dom"] == "hashseed":
         return exprprop.check_hashseed(case, io)
+    exprprop.mark_fragment(case, mos)
     fails = exprprop.check_determinism(case, io, mos)
     rb = io.get("rebinds") or []
     if rb and rb[-1]["cl"] == 5 and io.get("message") is not None and rb[-1].get("message") != io["message"]:
